@@ -10,6 +10,9 @@ LEAN_TB = [
     "the Rust harness, its scripted transports, and the Python orchestrator",
 ]
 
+# driver commands answered by an independent specification (Bita/Spec/*), not by the model of the code
+SPEC_CMDS = {"chunk-spec", "http-spec", "runs"}
+
 L1 = os.path.join(core.TARGET, "debug", "l1")
 
 
